@@ -33,7 +33,24 @@ pub fn run(tier: &str) -> Result<Report, String> {
         }
         slices.push(json!({"network": b.name, "max_nodes": m, "alphabet": alpha.describe(), "formulae": fs.len(), "label_families": fams}));
     }
+    // F_ops: every operator / quantifier form on EVERY coloured set (pair) of tiny networks
+    let unary_forms = ["~ %p%", "EX %p%", "AX %p%", "EF %p%", "AF %p%", "EG %p%", "AG %p%", "!{x}: (%p% & EX {x})", "3{x}: (@{x}: %p%)", "V{x}: (@{x}: (%p% | AX {x}))", "!{x} in %e%: AX {x}", "3{x} in %e%: (@{x}: True)", "V{x} in %e%: (@{x}: False)"];
+    let binary_forms = [
+        "%p% & %q%", "%p% | %q%", "%p% ^ %q%", "%p% => %q%", "%p% <=> %q%", "%p% EU %q%", "%p% AU %q%",
+        "!{x} in %d%: %p%", "3{x} in %d%: (@{x}: %p%)", "V{x} in %d%: (@{x}: %p%)", "!{x} in %d%: AX ({x} | %p%)", "3{x} in %d%: EX ({x} & %p%)", "V{x} in %d%: (EF {x} | %p%)",
+        "!{x} in %d%: (!{y} in %e%: (EX {x} & {y}))", "3{x} in %d%: (V{y} in %e%: (@{x}: EF {y}))",
+    ];
+    for (name, pairs) in [("tog2", true), ("imp1", tier != "quick"), ("con2", tier != "quick")] {
+        let b = by_name(&nets, name);
+        if !which.contains(&name) {
+            sem::note_network(&mut rep, &b);
+        }
+        sem::ops_sweep(&mut rep, &b, &unary_forms, false, ck);
+        if pairs {
+            sem::ops_sweep(&mut rep, &b, &binary_forms, true, ck);
+        }
+    }
     rep.set("slices", json!(slices));
-    rep.rule = "all closed extended formulae with at most max_nodes nodes that contain a wild-card or a domain, x every label family (context-set assignment), through model_check_extended_formula(_dirty), compared with the explicit-state oracle on every state x valid colour; distinct_nontrivial = distinct non-trivial (network, labels, verdict table)".into();
+    rep.rule = "all closed extended formulae with at most max_nodes nodes that contain a wild-card or a domain, x every label family (context-set assignment), through model_check_extended_formula(_dirty), compared with the explicit-state oracle on every state x valid colour; plus the operator sweep: every unary/binary operator and every quantifier form with/without domains on EVERY coloured set (and every pair of sets) of tiny networks; distinct_nontrivial = distinct non-trivial (network, labels, verdict table)".into();
     Ok(rep)
 }
